@@ -23,6 +23,7 @@ CONSTANTS
   Acts,        \* enabled action families, subset of ActNames
   ObsKinds,    \* which read APIs are rendered into Obs
   Limits,      \* page limits used by Obs (0 = unlimited)
+  Allowed,     \* {} = everything, or the set of <<dataset, entity, content>> triples that may be written (id pools per dataset)
   TrackPre,    \* TRUE: keep the previous state's Obs in variable pre and emit it (crash configurations)
   Writable,    \* dataset names that StoreBatch / ExecTxn may write to (jobs write to the others)
   Precreated,  \* TRUE iff the configuration starts from InitCreated (told to the harness in the header)
@@ -201,8 +202,9 @@ Batches == UNION { [1..k -> Ent \X CId] : k \in 1..MaxBatch }
 Log(r) == hist' = Append(hist, r) /\ pre' = (IF TrackPre THEN Obs ELSE <<>>)
 Steps == Len(hist)
 
+WriteOk(n, b) == Allowed = {} \/ \A i \in 1..Len(b) : <<n, b[i][1], b[i][2]>> \in Allowed
 StoreBatch(n, b) ==
-  /\ "store" \in Acts /\ Exists(n) /\ n \in Writable
+  /\ "store" \in Acts /\ Exists(n) /\ n \in Writable /\ WriteOk(n, b)
   /\ LET i == dsInc[n]
          r == Apply(feed[i], nextPos[i], b, clock + 1)
      IN /\ feed' = [feed EXCEPT ![i] = r[1]]
@@ -215,7 +217,7 @@ StoreBatch(n, b) ==
 \* a transaction writes one element to each of two datasets at one instant
 ExecTxn(n1, x1, n2, x2) ==
   /\ "txn" \in Acts /\ Exists(n1) /\ Exists(n2) /\ DsIdx(n1) < DsIdx(n2)
-  /\ n1 \in Writable /\ n2 \in Writable
+  /\ n1 \in Writable /\ n2 \in Writable /\ WriteOk(n1, <<x1>>) /\ WriteOk(n2, <<x2>>)
   /\ LET i1 == dsInc[n1]
          i2 == dsInc[n2]
          r1 == Apply(feed[i1], nextPos[i1], <<x1>>, clock + 1)
@@ -407,7 +409,12 @@ NextSample ==
   /\ KindsNow # {}
   /\ \E j \in 1..Fan :
       \E kind \in RE(KindsNow) :
-        \/ kind = "store" /\ \E n \in RE(LiveNames \cap Writable), b \in RE(Batches) : StoreBatch(n, b)
+        \/ kind = "store" /\ Allowed = {} /\ \E n \in RE(LiveNames \cap Writable), b \in RE(Batches) : StoreBatch(n, b)
+        \/ kind = "store" /\ Allowed # {} /\
+             \E a1 \in RE({ x \in Allowed : x[1] \in LiveNames \cap Writable }) :
+               \/ StoreBatch(a1[1], <<<<a1[2], a1[3]>>>>)
+               \/ (MaxBatch > 1 /\ \E a2 \in RE({ x \in Allowed : x[1] = a1[1] }) :
+                      StoreBatch(a1[1], <<<<a1[2], a1[3]>>, <<a2[2], a2[3]>>>>))
         \/ kind = "txn" /\ \E n1 \in RE(LiveNames \cap Writable) : \E n2 \in RE((LiveNames \cap Writable) \ {n1}) :
                              \E x1 \in RE(Ent \X CId), x2 \in RE(Ent \X CId) :
                                IF DsIdx(n1) < DsIdx(n2) THEN ExecTxn(n1, x1, n2, x2) ELSE ExecTxn(n2, x2, n1, x1)
